@@ -393,7 +393,8 @@ func TestC09Faults(t *testing.T) {
 		errno := rapid.SampledFrom([]string{"ENOSPC", "EIO", "EACCES", "EDQUOT"}).Draw(rt, "errno")
 		max := map[string]int{"write": 40, "renameat": 8, "openat": 30, "close": 30, "fsync": 4}[sc]
 		when := rapid.IntRange(1, max).Draw(rt, "when")
-		step := rapid.SampledFrom([]string{"", "", "+", "+2", "+3"}).Draw(rt, "repeat")
+		// ("+": every call from the n-th on fails, so that a retry inside Save fails as well)
+		step := rapid.SampledFrom([]string{"", "+", "+", "+2", "+3"}).Draw(rt, "repeat")
 		dir := workDir(rt)
 		defer os.RemoveAll(dir)
 		report := filepath.Join(dir, "report.log")
